@@ -159,6 +159,10 @@ def build_pair(case):
             enc_members = members + [{"name": extra, "data": b"secret bytes", "encrypted": True}]
             rng.shuffle(enc_members)
             return "zip", ".zip", plain, archives.build("zip-deflated", enc_members), True
+        if mech == "zip-flag" and variant == "plain-non-ascii-member-names":
+            # zipfile sets general-purpose bit 11 (names are UTF-8) on such members: a flag word that is not zero, and not encryption
+            named = [dict(m, name=["\u00dcbersicht %d.txt", "\u5831\u544a %d.txt", "r\u00e9sum\u00e9 %d.txt", "plain %d.txt"][i % 4] % i) for i, m in enumerate(members)]
+            return "zip", ".zip", archives.build("zip-deflated", members), archives.build("zip-deflated", named), False
         if mech == "zip-flag" and variant == "plain-unsupported-compression-method":
             # a member stored with a method zipfile cannot decode (9 = Deflate64): unreadable, but not encrypted -> must not be
             # *rejected as encrypted*; whether and how it fails otherwise is not this property's business (expect_encrypted None)
@@ -208,10 +212,16 @@ def _run_entry(kind, ext, data, entry, tmpdir):
     import hashlib
     out = {"entry": entry}
     texts = []
-    if entry == "direct":
+    if entry in ("direct", "direct-unrewound", "direct-after-sniff"):
         n = 0
+        stream = io.BytesIO(data)
+        if entry == "direct-unrewound":
+            stream = io.BytesIO()
+            stream.write(data)              # a buffer the caller filled and did not rewind
+        elif entry == "direct-after-sniff":
+            stream.read(8)                  # the caller looked at the magic bytes first
         try:
-            for r in obs.extractor(kind)(io.BytesIO(data), "dir/in" + ext):
+            for r in obs.extractor(kind)(stream, "dir/in" + ext):
                 n += 1
                 texts.append((r.get_full_text(), [u.get_text() for u in r.iterate_units()], [obs.sha1(i.get_bytes().read()) for i in r.iterate_images()]))
         except Exception as e:
@@ -278,7 +288,7 @@ def work(case):
     kind, ext, plain, variant, expect_enc = build_pair(case)
     res = {"expect_encrypted": expect_enc, "kind": kind, "plain": {}, "variant": {}}
     with tempfile.TemporaryDirectory(prefix="verif-c08-") as td:
-        for entry in ("direct", "read_file", "cli", "attachment"):
+        for entry in ("direct", "direct-unrewound", "direct-after-sniff", "read_file", "cli", "attachment"):
             if plain is not None:
                 res["plain"][entry] = _run_entry(kind, ext, plain, entry, td)
             res["variant"][entry] = _run_entry(kind, ext, variant, entry, td)
@@ -321,7 +331,7 @@ def gen_cases(run):
             yield mk(mech="ole-flag", fmt="xls", variant=variant, seed=base + r)
         for variant in ("encrypted-summary", "encrypted-summary-information", "encryption-info"):
             yield mk(mech="ole-flag", fmt="ppt", variant=variant, seed=base + r)
-        for variant in ("first", "last", "only", "hidden-member", "unsupported-member", "nested-archive-member", "plain-unsupported-compression-method"):
+        for variant in ("first", "last", "only", "hidden-member", "unsupported-member", "nested-archive-member", "plain-unsupported-compression-method", "plain-non-ascii-member-names"):
             yield mk(mech="zip-flag", fmt="zip", variant=variant, seed=base + r)
         for variant in ("main-folder", "one-of-several-folders", "encrypted-header"):
             yield mk(mech="7z-aes", fmt="7z", variant=variant, seed=base + r)
@@ -386,7 +396,7 @@ def main(run):
                 seen.add(key)
                 run.violation(key, f"{label} (seed {case['seed']}): {detail}", rep)
         exp_enc = ob["expect_encrypted"]
-        for entry in ("direct", "read_file", "cli", "attachment"):
+        for entry in ("direct", "direct-unrewound", "direct-after-sniff", "read_file", "cli", "attachment"):
             pv, vv = ob["plain"].get(entry), ob["variant"].get(entry)
             if vv is None:
                 continue
@@ -439,7 +449,7 @@ def main(run):
                     elif pv is not None and vv.get("digest") != pv.get("digest"):
                         v("content-differs-from-unencrypted-original", f"via {entry}: text/units/images differ from the plain original")
         mechs[f"{mech}:{fmt}"] = mechs.get(f"{mech}:{fmt}", 0) + 1
-        outcomes = ",".join(f"{e}:{(ob['variant'][e].get('exc') or {}).get('name', ob['variant'][e].get('cli_exit', 'ok'))}" for e in ("direct", "read_file", "cli", "attachment") if e in ob["variant"])
+        outcomes = ",".join(f"{e}:{(ob['variant'][e].get('exc') or {}).get('name', ob['variant'][e].get('cli_exit', 'ok'))}" for e in ("direct", "direct-unrewound", "direct-after-sniff", "read_file", "cli", "attachment") if e in ob["variant"])
         run.case(f"{label}:{outcomes}:{','.join(sorted(seen))}", sample={"mechanism": mech, "format": fmt, "variant": variant, "expect_encrypted": exp_enc, "outcomes": outcomes, "violations": sorted(seen)} if case["id"] % 23 == 0 else None)
     run.extras["pairs_per_mechanism"] = mechs
     run.count("mechanism_format_combinations", len(mechs))
